@@ -158,7 +158,9 @@ fn gen_echo(rng: &mut impl Rng, max_blob: usize) -> Echo {
             text: gen_string(rng, 64),
             blob: (0..blob_len).map(|_| rng.gen()).collect(),
             opt: if rng.gen_bool(0.5) { Some(gen_inner(rng)) } else { None },
-            list: (0..rng.gen_range(0..4)).map(|_| gen_inner(rng)).collect(),
+            // now and then a long flat list: its serialisation needs far more scratch space than
+            // the serializer's first (16 KiB) heap block
+            list: (0..if rng.gen_bool(0.12) { rng.gen_range(1_500..6_000) } else { rng.gen_range(0..4) }).map(|_| gen_inner(rng)).collect(),
             flag: rng.gen(),
         },
         fixed: Fixed { a: rng.gen(), b: rng.gen(), c: rng.gen(), d: rng.gen() },
@@ -269,7 +271,7 @@ impl Check for C12 {
         "E2: server host (real datacake-rpc Server + echo service that logs every handler invocation) and client host (real RpcClient, plus a raw hyper HTTP/2 client for damaged requests and a same-URI impostor service for damaged replies) over simulated TCP; frame corruption enumerated at DataView::using, the decision point both directions share"
     }
     fn rule(&self) -> &'static str {
-        "Cases: seeded message values (fixed-size struct, strings, byte vectors empty..max, nested options and vectors; a quarter make the handler fail with a seeded error code and message). Per value: (1) through the real client and server: handler-observed value == sent, reply == handler's, error code and message identical, exactly one invocation; (2) at DataView::using for the request frame, the reply frame and a Status frame: EVERY single-bit flip (frames <= 1 KiB; 4096 seeded flips above), EVERY truncation length (<= 2 KiB; 1024 seeded above), extensions by 1..16 bytes, and EVERY length below size_of(archived root) as an all-zero and a random body with a CORRECT checksum; (3) a seeded sample of those damaged frames is sent through the network - requests by a raw HTTP/2 POST to the real URI, replies by an impostor service on the same URI - with latency and an optional link hold. Oracle: damaged/short frames are refused (Err / InvalidPayload), no handler runs on them, nothing panics (debug assertions and overflow checks are on). Non-trivial = every case (each runs thousands of corruptions). Distinct = hash of the value seed and sizes."
+        "Cases: seeded message values (fixed-size struct, strings, byte vectors empty..max, nested options and vectors, one value in eight with a flat list of 1500-6000 small structs; a quarter make the handler fail with a seeded error code and message). Per value: (1) through the real client and server: handler-observed value == sent, reply == handler's, error code and message identical, exactly one invocation; (2) at DataView::using for the request frame, the reply frame and a Status frame: EVERY single-bit flip (frames <= 1 KiB; 4096 seeded flips above), EVERY truncation length (<= 2 KiB; 1024 seeded above), extensions by 1..16 bytes, and EVERY length below size_of(archived root) as an all-zero and a random body with a CORRECT checksum; (3) a seeded sample of those damaged frames is sent through the network - requests by a raw HTTP/2 POST to the real URI, replies by an impostor service on the same URI - with latency and an optional link hold. Oracle: damaged/short frames are refused (Err / InvalidPayload), no handler runs on them, nothing panics (debug assertions and overflow checks are on). Non-trivial = every case (each runs thousands of corruptions). Distinct = hash of the value seed and sizes."
     }
     fn assumptions(&self) -> Vec<String> {
         vec![
@@ -320,7 +322,22 @@ impl Check for C12 {
         let mut net_requests: Vec<(Vec<u8>, String)> = Vec::new();
         let mut net_replies: Vec<(Vec<u8>, String)> = Vec::new();
         for v in &values {
-            let frame = datacake_rpc::to_view_bytes(v).expect("serialize").to_vec();
+            let ser = std::panic::catch_unwind(std::panic::AssertUnwindSafe(|| datacake_rpc::to_view_bytes(v).map(|b| b.to_vec())));
+            let frame = match ser {
+                Ok(Ok(f)) => f,
+                Ok(Err(e)) => {
+                    out.violate("C12/message-cannot-be-framed", format!("to_view_bytes failed for a message with a list of {} and a blob of {} bytes: {e}", v.rich.list.len(), v.rich.blob.len()));
+                    continue;
+                },
+                Err(_) => {
+                    let p = take_panics();
+                    out.violate(
+                        "C12/framing-a-message-panics",
+                        format!("to_view_bytes panicked for a message with a list of {} structs and a blob of {} bytes: {}", v.rich.list.len(), v.rich.blob.len(), p.first().map(|(l, m)| format!("{l}: {m}")).unwrap_or_default()),
+                    );
+                    continue;
+                },
+            };
             let root = std::mem::size_of::<rkyv::Archived<Echo>>();
             enumerate_frame::<Echo>("Echo", &frame, root, &mut rng, false, &mut out);
             let st = Status { code: code_of(v.fail_with.max(1)), message: v.err_msg.clone() };
